@@ -27,12 +27,12 @@ m = dict(
     setup_cmd='bin/setup.sh',
     hooks=dict(guard='PRIVATE_PGM_VERIF', enable='no hooks: contracts are sidecar files under /verif/pv/contracts and the repository is read and imported unmodified',
                baseline_off_cmd='cd /repo && /venv/bin/python -m pytest -ra -q -p no:cacheprovider --timeout=900 --continue-on-collection-errors',
-               source_commits=json.load(open('fix_commits.json')) if os.path.exists('fix_commits.json') else [], add_only=True),
+               source_commits=[], add_only=True),
     engines=[dict(name='pv', path='pv/', serves_properties=[c['property_id'] for c in checks],
                   kind_free_text='home-grown VC generator over the real Python AST (pv/vc/engine.py) + z3/cvc5; sidecar contracts (pv/contracts); '
                                  'bounded run-time contract tier on the real code (pv/props/*.run_case), labelled bounded')],
     checks=checks,
-    notes='See DESIGN.md. Every check = deductive tier (obligations from /repo working tree) + bounded tier (same clauses at run time, labelled bounded).',
+    notes='Unguarded fix: commits in /repo (genuine defects, see known_findings.json): ' + ', '.join(c[:7] for c in json.load(open('fix_commits.json'))) + '. See DESIGN.md. Every check = deductive tier (obligations from /repo working tree) + bounded tier (same clauses at run time, labelled bounded).',
     not_applicable=na)
 json.dump(m, open('MANIFEST.json', 'w'), indent=1)
 print('checks', [c['property_id'] for c in checks], 'n/a', [n['property_id'] for n in na])
